@@ -278,6 +278,21 @@ def case_wellformed(desc, mk, ref: bytes, unpack):
         return f"repack.exc.{type(e).__name__}:{desc[0]}", {"exc": repr(e)}
     if again != ref:
         return f"repack.bytes:{desc[0]}", {"got": again.hex()[:400], "ref": ref.hex()[:400]}
+    if len(ref) <= 4096:
+        # decoded from a receive buffer the caller goes on using (bytearray, memoryview of one): the decoded message is a value of its own -
+        # it does not change when the buffer is overwritten, and it does not pin the buffer (the caller can resize it)
+        for form in ("bytearray", "memoryview"):
+            buf = bytearray(ref)
+            try:
+                v2 = unpack(buf if form == "bytearray" else memoryview(buf))
+                for i_ in range(len(buf)):
+                    buf[i_] = 0xA5
+                del buf[:]
+                after = bytes(v2.pack())
+            except Exception as e:  # noqa: BLE001
+                return f"buffer-reuse.exc.{type(e).__name__}:{desc[0]}", {"exc": repr(e), "form": form}
+            if after != ref:
+                return f"buffer-reuse.aliased:{desc[0]}", {"form": form, "first_diff": next((i for i, (x, y) in enumerate(zip(after, ref)) if x != y), min(len(after), len(ref)))}
     return None
 
 
